@@ -188,12 +188,17 @@ def run (inp obs : List String) : Verdict :=
         | none => false
       let nblocks := (blk.getD []).length
       let multi := fmt == 1 && ord.isNone && nblocks ≥ 2
+      -- a tag of the order list without an exact key (must be ignored) / with one (must win)
+      let orderMiss := fmt == 1 && blk.isSome && (ord.getD []).any (fun t => !hasKey t (blk.getD []))
+      let orderExact := fmt == 1 && blk.isSome && (ord.getD []).any (fun t => hasKey t (blk.getD []))
       let tags := ["fmt" ++ toString fmt, "src1-" ++ toString (min n1 4), "src2-" ++ toString (min n2 4),
         "blocks" ++ toString (min nblocks 4)] ++
         (if suff then ["suffixed"] else []) ++ (if multi then ["multi-block-no-order"] else []) ++
         (if ord.isSome then ["featureorder"] else []) ++
+        (if orderMiss then ["order-miss"] else []) ++ (if orderMiss && nblocks ≥ 2 then ["order-miss-multi"] else []) ++
+        (if orderExact && nblocks ≥ 3 then ["order-exact-among-variants"] else []) ++
         (if !editKeys.isEmpty then ["store-inserts"] else []) ++ (if alias then ["store-alias"] else []) ++
-        (if suff || multi || alias then ["nt"] else [])
+        (if suff || multi || alias || (orderMiss && nblocks ≥ 2) then ["nt"] else [])
       { agree := modelOut == implOut, spec := spec, tags := tags, model := modelOut }
     | _, _, _, _, _, _, _ => { agree := false, model := "bad-input" }
   | _ => { agree := false, model := "bad-line" }
